@@ -2138,7 +2138,8 @@ class CanMatrix(object):
     def delete_zero_signals(self):  # type: () -> None
         """Delete all signals with zero bit width from all Frames."""
         for frame in self.frames:
-            for signal in frame.signals:
+            # iterate over a copy: removing while iterating skips the next signal
+            for signal in list(frame.signals):
                 if 0 == signal.size:
                     frame.signals.remove(signal)
 
